@@ -73,9 +73,10 @@ def cmd_selftest_determinism(args):
     bad = 0
     for cid in ids:
         outs = []
+        n_for = args.n or getattr(core.load_check(cid), "SELFTEST_N", 500)
         for hashseed, workers in (("0", 1), ("12345", 16), ("777", 4)):
             env = dict(os.environ, PYTHONHASHSEED=hashseed)
-            p = subprocess.run([core.PYTHON, os.path.join(HERE, "run.py"), "digests", cid, "--n", str(args.n),
+            p = subprocess.run([core.PYTHON, os.path.join(HERE, "run.py"), "digests", cid, "--n", str(n_for),
                                 "--workers", str(workers), "--repo", args.repo],
                                capture_output=True, text=True, env=env)
             if p.returncode != 0:
@@ -85,7 +86,7 @@ def cmd_selftest_determinism(args):
             outs.append(p.stdout)
         else:
             same = all(o == outs[0] for o in outs)
-            print(f"{cid}: {args.n} seeds x 3 fresh interpreters (hash seeds 0/12345/777, workers 1/16/4): "
+            print(f"{cid}: {n_for} seeds x 3 fresh interpreters (hash seeds 0/12345/777, workers 1/16/4): "
                   f"{'identical' if same else 'DIVERGED'}")
             if not same:
                 bad += 1
@@ -128,7 +129,7 @@ def main():
     p.set_defaults(fn=cmd_digests)
     p = sub.add_parser("selftest-determinism")
     p.add_argument("--ids")
-    p.add_argument("--n", type=int, default=200)
+    p.add_argument("--n", type=int, default=0)
     p.add_argument("--repo", default="/repo")
     p.set_defaults(fn=cmd_selftest_determinism)
     p = sub.add_parser("list")
